@@ -86,7 +86,7 @@ def main():
     if not decks:
         chk.machinery('no deck generated')
         return chk.finish()
-    recs, verdicts, nd, meta = common_univ.run(chk, decks, 'owner', chk.seed, optsets, moved_every=3)
+    recs, verdicts, nd, meta = common_univ.run(chk, decks, 'owner', chk.seed, optsets, moved_every=3, unit_every=5)
     chk.cov['traces_validated_against_impl'] = len(verdicts)
     chk.cov['evaluations'] = len(verdicts)
     nt = 0
